@@ -178,13 +178,16 @@ def kind_opts(kind):
     d = {
         "startup": st.sampled_from(
             ["ok"] * 7 + (["default"] * 3 if kind != "card" else ["default"])
-            + ["none", "wrong"]),
+            + ["none", "wrong"]
+            # documented: "an empty list or anything else that evaluates
+            # false will remove the 'rdwr' option completely"
+            + (["empty", "emptytuple", "subset"] if kind == "rdwr" else [])),
         "discover": st.sampled_from(["default", True, True, False]),
         "connect": st.one_of(st.just("default"), RET),
         "release": st.one_of(st.just("default"), st.just("default"), RET),
     }
     if kind == "rdwr":
-        d["targets"] = st.sampled_from([None, ["106A"], ["212F"],
+        d["targets"] = st.sampled_from([None, [], ["106A"], ["212F"],
                                         ["106A", "106B", "212F"],
                                         ["106B"], ["424F", "106A"]])
         d["iterations"] = st.sampled_from([None, 1, 2])
@@ -250,6 +253,12 @@ def run_connect(case, ctx):
                     return arg
                 if spec == "none":
                     return None
+                if spec == "empty":
+                    return []
+                if spec == "emptytuple":
+                    return ()
+                if spec == "subset":
+                    return arg[:1]
                 return 42
             return spec
         return f
@@ -339,8 +348,10 @@ def run_connect(case, ctx):
         spec = case[kind]
         if spec is None:
             return False
-        return spec["startup"] in ("default", "ok") if kind != "card" \
-            else spec["startup"] == "ok"
+        if kind == "rdwr" and spec.get("targets") == []:
+            return False        # nothing to look for, whatever on-startup is
+        return spec["startup"] in ("default", "ok", "subset") \
+            if kind != "card" else spec["startup"] == "ok"
     alive = [k for k in kinds if survives(k)]
     if not alive:
         if ret is not None:
